@@ -148,8 +148,9 @@ impl Property for C15 {
             }
             q
         } else {
-            sqlgen::gen_aggregate(rng, &cfg, &AggCfg { order_insensitive: true, allow_join: false, max_aggs: 5 })
+            sqlgen::gen_aggregate(rng, &cfg, &AggCfg { order_insensitive: true, allow_join: true, max_aggs: 5 })
         };
+        let joined: Vec<Vec<u8>> = if query.join.is_some() { (0..rng.range(1, 8)).map(|_| sqlgen::gen_joined_line(rng, lc.keys.min(3), 10).into_bytes()).collect() } else { Vec::new() };
         let n_lines = if large { rng.range(18, if thorough { 60 } else { 40 }) as usize } else { rng.range(1, 10) as usize };
         let mut specs: Vec<sqlgen::LineSpec> = (0..n_lines).map(|_| sqlgen::gen_line_spec(rng, &cfg, &lc)).collect();
         if big_n {
@@ -225,6 +226,7 @@ impl Property for C15 {
             "prop": "C15",
             "cfg": cfg_to_json(&cfg),
             "stmt": query.text(),
+            "joined": if query.join.is_some() { J::String(enc(&gen::join_lines(&joined, true))) } else { J::Null },
             "group_keys": query.group_by,
             "split_law": split_law,
             "specs": specs.iter().map(spec_to_json).collect::<Vec<_>>(),
@@ -281,7 +283,8 @@ impl Property for C15 {
         }
         let stmt = jstr(case, "stmt");
         let format = jstr(case, "format");
-        let defs = sqlgen::table_defs(&cfg);
+        let defs = format!("{} {}", sqlgen::table_defs(&cfg), sqlgen::JOINED_DEFS);
+        let joined: Option<Vec<u8>> = case.get("joined").and_then(|j| j.as_str()).map(dec);
         let lines: Vec<Vec<u8>> = specs.iter().map(|s| sqlgen::render_line(&cfg, s).into_bytes()).collect();
         let n = lines.len();
         let upper = stmt.to_uppercase();
@@ -291,7 +294,7 @@ impl Property for C15 {
 
         let run_order = |out: &mut Outcome, order: &[usize], label: &str, trace: bool| {
             let ls: Vec<Vec<u8>> = order.iter().map(|i| lines[*i].clone()).collect();
-            let mut b = batch_spec(&defs, &stmt, &[gen::join_lines(&ls, true)], None);
+            let mut b = batch_spec(&defs, &stmt, &[gen::join_lines(&ls, true)], joined.as_deref());
             b.format = format.clone();
             run(out, label, &b, trace)
         };
@@ -342,7 +345,7 @@ impl Property for C15 {
                 out.nontrivial.push(fnv_mix(content_hash, fnv(format!("{:?}", order).as_bytes())));
             }
             // the same arrival order through the follow path: the last table on screen
-            if oi < follow_orders && reference.status == Status::Ok {
+            if oi < follow_orders && reference.status == Status::Ok && joined.is_none() {
                 let ls: Vec<Vec<u8>> = order.iter().map(|i| lines[*i].clone()).collect();
                 let mut f = WorldSpec::new(&defs, &stmt, Mode::FollowExec { head: true });
                 f.files.push((FOLLOW_PATH.to_owned(), Vec::new()));
@@ -417,6 +420,7 @@ impl Property for C15 {
         }
         out.probe("first_value_null", specs.first().map(|s| s.n.is_none() || s.r.is_none()).unwrap_or(false) as u64);
         out.probe("timestamp_argument", upper.contains("(D)") as u64);
+        out.probe("join_statement", joined.is_some() as u64);
         out.probe("large_more_than_16_lines", (n > 16) as u64);
         out.probe("int_magnitude_above_1e8", specs.iter().any(|s| s.n.as_ref().map(|n| n.trim_start_matches('-').len() >= 9).unwrap_or(false)) as u64);
         out.probe("text_minmax", (upper.contains("MIN(K)") || upper.contains("MAX(K)")) as u64);
